@@ -12,6 +12,7 @@ QUICK_RUNS = 8000
 THOROUGH_MIN_RUNS = 40000
 BATCH = 50
 CASE_WALL_S = 60.0
+ISOLATE = True      # every run in a forked child: no interpreter state leaks from one simulated server to the next
 RULE = ("case = the real Arbiter with stub workers under client load and a seeded ordering of {USR2, TERM/QUIT old master, TERM/QUIT "
         "new master, second USR2, WINCH old (daemon mode), HUP old, new master killed}; TCP or unix-socket bind; the exec'd 'binary' is "
         "the same real Arbiter started as a new simulated process from the environment the real reexec() built (GUNICORN_PID, "
